@@ -157,7 +157,7 @@ func GetTimeFromString(now time.Time, format string, date string) (time.Time, er
 	if err == nil {
 		return customTime, nil
 	}
-	return naturaldate.Parse(date, time.Now())
+	return naturaldate.Parse(date, now)
 }
 
 func (o *Options) populateFilter(c *cli.Context) error {
